@@ -47,7 +47,7 @@ class ScriptedPRF:
         return real_prf(key, msg)
 
 
-_PROBE = {"installed": False, "rec": None, "fail": None}
+_PROBE = {"installed": False, "rec": None, "fail": None, "script": None}
 
 
 def install_os_random_probes():
@@ -68,6 +68,8 @@ def install_os_random_probes():
             rec["calls"] += 1
         if _PROBE["fail"] is not None:
             raise _PROBE["fail"]
+        if _PROBE["script"] is not None:
+            return _PROBE["script"](n)
         return real_urandom(n)
     os.urandom = urandom
     random._urandom = urandom
@@ -77,7 +79,7 @@ def install_os_random_probes():
         def getrandom(size, flags=0):
             if _PROBE["fail"] is not None:
                 raise _PROBE["fail"]
-            out = real_getrandom(size, flags)
+            out = _PROBE["script"](size) if _PROBE["script"] is not None else real_getrandom(size, flags)
             rec = _PROBE["rec"]
             if rec is not None:
                 rec["bytes"] += len(out)
@@ -95,6 +97,8 @@ def install_os_random_probes():
             if rec is not None:
                 rec["bytes"] += n
                 rec["calls"] += 1
+            if _PROBE["script"] is not None:
+                return _PROBE["script"](n)
             return real_rand(n)
         ssl.RAND_bytes = rand_bytes
     except Exception:  # noqa: BLE001
@@ -125,6 +129,33 @@ def os_random_unavailable(exc):
         yield
     finally:
         _PROBE["fail"] = old
+
+
+@contextlib.contextmanager
+def os_random_scripted(seed, flip_bit=None):
+    """While the block runs every door to the OS random source serves a fixed pseudo-random stream determined by `seed`
+    (SHAKE-256), optionally with ONE bit of that stream inverted (absolute bit position, most significant bit of the first
+    byte is position 0).  Yields a dict with the number of bytes served."""
+    install_os_random_probes()
+    stream = hashlib.shake_256(b"os-random-script|" + bytes(seed)).digest(4096)
+    if flip_bit is not None:
+        b = bytearray(stream)
+        b[flip_bit // 8] ^= 0x80 >> (flip_bit % 8)
+        stream = bytes(b)
+    state = {"pos": 0}
+
+    def script(n):
+        out = stream[state["pos"]:state["pos"] + n]
+        if len(out) < n:
+            out += hashlib.shake_256(b"tail|%d" % state["pos"]).digest(n - len(out))
+        state["pos"] += n
+        return out
+    old = _PROBE["script"]
+    _PROBE["script"] = script
+    try:
+        yield state
+    finally:
+        _PROBE["script"] = old
 
 
 @contextlib.contextmanager
